@@ -94,7 +94,56 @@ def sc_trial(V, driver="Canonical", table="d", n=2, fixed=(), check=False, calc=
     V.prove(_eq(V, e_next, pes.energy(atoms)), "next-energy==U(next)", info=what)
 
 
-SCENARIOS = {"trial": sc_trial}
+class _Watch:
+    """Observer (public observer protocol) that judges the invariant after every step of a real run."""
+
+    def __init__(self, V, mc, pes, info):
+        self.V, self.mc, self.pes, self.info = V, mc, pes, info
+        self.interval = 1
+        self.k = 0
+        self.last_evals = None
+
+    def __call__(self):
+        V, mc = self.V, self.mc
+        calc = mc.atoms.calc
+        tag = f"step{self.k}"
+        hist = [None if h[1] is None else bool(h[1]) for h in mc.move_history]
+        what = self.info + f":{tag}:history={hist}"
+        if self.last_evals is not None and calc.kind != "stateless":
+            judged = sum(1 for h in hist if h is not None)
+            V.prove(calc.nevals - self.last_evals == judged, "one-evaluation-per-judged-trial", info=what + f":spent={calc.nevals - self.last_evals}:judged={judged}")
+        invariant(V, mc, self.pes, "during-run", what)
+        n1 = calc.nevals
+        e = mc.atoms.get_potential_energy()
+        V.prove(_eq(V, e, self.pes.energy(mc.atoms)), "reported-energy==U(current)", info=what)
+        if calc.kind != "stateless":
+            V.prove(calc.nevals == n1, "logging-costs-no-evaluation", info=what + f":extra={calc.nevals - n1}")
+        self.last_evals = calc.nevals
+        self.k += 1
+
+    def close(self):
+        pass
+
+
+def sc_history(V, driver="Canonical", table="d", n=2, steps=2, calc="caching", prior_eval=False):
+    """A real run through the public entry point from a FRESH simulation (start-up sequence included),
+    judged after every step: every accept/reject history of `steps` trials."""
+    info = f"history:{driver}:{table}:n={n}:calc={calc}:steps={steps}:prior_eval={prior_eval}"
+    mc, atoms, pes, move, labels, exch = c03.build(V, driver, table, n, (), False, calc, False, False, False, validate=False)
+    if prior_eval:
+        atoms.get_potential_energy()  # the user looked at the energy before starting
+    mc.file_manager.attach_observer("watch", _Watch(V, mc, pes, info))
+    try:
+        mc.run(steps)
+    except (symx.PathAbort, symx.BoundHit, symx.Unsupported, symx.ReplayMismatch):
+        raise
+    except Exception as ex:  # noqa: BLE001
+        V.reach("raised:" + type(ex).__name__)
+        return
+    V.reach("ran")
+
+
+SCENARIOS = {"trial": sc_trial, "history": sc_history}
 _replay = generic_replay(SCENARIOS)
 
 
@@ -149,7 +198,13 @@ def _plan(tier):
     P.append(("trial", dict(driver="GrandCanonical", table="e", n=2, check=True, calc="caching"), R + ("failed",)))
     P.append(("trial", dict(driver="Canonical", table="d2", n=2, check=True, calc="caching"), R + ("failed",)))
     P.append(("trial", dict(driver="HamiltonianCanonical", table="h", n=1, check=True, calc="caching"), R + ("failed",)))
+    P.append(("trial", dict(driver="GrandCanonical", table="e+e", n=3, check=False, calc="caching", coin=True), R))
+    P.append(("history", dict(driver="Canonical", table="d", n=2, steps=2, calc="caching", prior_eval=False), ("ran",)))
+    P.append(("history", dict(driver="Canonical", table="d", n=2, steps=2, calc="caching", prior_eval=True), ("ran",)))
     if not q:
+        P.append(("history", dict(driver="Canonical", table="d", n=2, steps=3, calc="neighbourlist", prior_eval=True), ("ran",)))
+        P.append(("history", dict(driver="GrandCanonical", table="d", n=2, steps=2, calc="caching", prior_eval=False), ("ran",)))
+        P.append(("history", dict(driver="Isobaric", table="cell", n=1, steps=1, calc="caching", prior_eval=True), ("ran",)))
         P.append(("trial", dict(driver="GrandCanonical", table="e", n=3, check=False, calc="caching", molecular=True), R))
         P.append(("trial", dict(driver="GrandCanonical", table="e2", n=2, check=False, calc="caching", coin=True), R))
         P.append(("trial", dict(driver="Canonical", table="d", n=3, check=True, calc="neighbourlist"), R + ("failed",)))
